@@ -39,7 +39,7 @@ FTAGS = {
 CORR = (1, 2, 3, 4, 5, 6, 7, 9)
 # oracle tag -> (correspondence tags that must be absent, guard tag that must be present, finding id)
 ORACLE_F = {
-    11: ((1, 2), None, None), 12: ((3,), 203, 'C20-NOHEADER-FIRST-ROW'), 13: ((3,), 203, 'C20-NOHEADER-FIRST-ROW'),
+    11: ((1, 2), None, None), 12: ((3,), None, None), 13: ((3,), None, None),
     14: ((4,), None, None), 15: ((4,), None, None), 16: ((4,), None, None), 17: ((4,), None, None),
     18: ((4,), None, None), 19: ((6,), None, None), 20: ((7,), None, None),
 }
@@ -254,7 +254,7 @@ def fcase_term(ctx, spec, k, table_mod=None, results_mod=None, perturb=None):
     if perturb:
         obs = perturb(obs)
     written = 'None' if spec.get('raw') is not None else '(Some ' + ct.lst([wtable_term(t) for t in spec['tables']]) + ')'
-    term = (f"(mkF {SUFFIX.get(spec['suffix'], 'SOther')} {ct.boolean(bool(spec.get('notitle')))}\n  {T(text)}\n  "
+    term = (f"(mkF {SUFFIX.get(spec['suffix'], 'SOther')} {ct.boolean(bool(spec.get('notitle')))} {ct.boolean(nolabel)}\n  {T(text)}\n  "
             f"{written}\n  {obs})")
     info['size'] = len(text)
     return term, info
@@ -318,7 +318,16 @@ def finding_probes(ctx):
             ctx.notes.append(f"finding_not_reproduced {f['id']} (tags {sorted(set(tags))})")
 
 
+def _latest_findings(ctx):
+    """An entry staged in known_findings.d replaces the entry with the same id of known_findings.json."""
+    byid = {}
+    for f in ctx.findings:
+        byid[f['id']] = f
+    ctx.findings = list(byid.values())
+
+
 def run(ctx):
+    _latest_findings(ctx)
     ok = ctx.build_gate(['C20'])
     ctx.trusted += [
         'harness/props/c20.py, c20_gen.py, c20_run.py, c20_writer.py: generator, export of real pandas objects to Gallina terms, classification',
@@ -368,8 +377,8 @@ def run(ctx):
         'impl_errors': sum(1 for i in infos if i['errors']),
         'inconclusive_files': sum(1 for v in verdicts if any(t >= 1000 for t in v)),
         'guard_final_obj_differs': sum(1 for v in verdicts if 201 in v),
-        'guard_no_iter0': sum(1 for v in verdicts if 202 in v),
-        'guard_noheader': sum(1 for v in verdicts if 203 in v),
+        'without_iteration_0': sum(1 for v in verdicts if 202 in v),
+        'table_without_label_line': sum(1 for v in verdicts if 203 in v),
         'written_files': sum(1 for s in fspecs if s.get('raw') is None),
         'in_domain_of_parse_render_theorem': sum(1 for v in verdicts if 210 in v),
         'run_dirs': R.distribution(rspecs, rverdicts, rinfos),
@@ -385,6 +394,7 @@ def _short(spec):
 
 
 def replay(ctx, rep):
+    _latest_findings(ctx)
     spec = rep['spec']
     if spec.get('level') == 'run':
         tags = R.run_rspecs(ctx, [spec], 'replay', quiet=True)[0][0]
